@@ -117,7 +117,7 @@ void harness(void) {
 	legacy_os.ctx = CTX; legacy_os.ref = 1000; legacy_os.data = legacy_raw; legacy_os.data_len = sizeof(legacy_raw);
 	if (KSI_List_new(NULL, &chain) != KSI_OK) return;       /* the links are statics of the harness: no destructor */
 	for (i = 0; i < HC_LINKS; i++) if (i < n) {
-		kind[i] = 1;
+		kind[i] = 2;
 		if (kind[i] < 0 || kind[i] > 2) return;
 		lk[i].ctx = CTX; lk[i].isLeft = nondet_bool(); lk[i].levelCorrection = NULL; lk[i].legacyId = NULL; lk[i].metaData = NULL; lk[i].imprint = NULL;
 		ref_c[i] = ref_s[i] = 0;
